@@ -208,6 +208,10 @@ def extra_templates():
               ("Point2 :: blob {\n    x: int,\n    y: int,\n}\nmk2 :: fn n: int -> int do\n    ret 0 - n\nend\n" if decoy else "") + \
               "start :: fn do\n    p: Point = Point { x: ?a }\n    print(p.x)\n    print(mk(?b).x)\n    print(K)\n    print(side(p))\n" + ("    q := Point2 { x: 1, y: 2 }\n    print(q.y)\n    print(mk2(?b))\n" if decoy else "") + "end\n"
         out.append({"name": "namespace_chain" + ("_with_decoy" if decoy else ""), "role": "multi-hop-namespace-path" + ("(decoy)" if decoy else ""), "text": main, "files": files, "ref_text": ref, "dom": {"a": (0, 3), "b": (0, 3)}, "expect": "accept"})
+    # (2b) a FOLDER or a /-rooted file named like a bundled module is the user's, only the bare name means the bundled module
+    for nm, imp in (("folder", "use math/ as m"), ("rooted_file", "use /list as m"), ("rooted_folder", "use /math/ as m")):
+        out.append({"name": "std_named_" + nm, "role": "user-module-named-like-std(%s)" % nm, "text": imp + "\nstart :: fn do\n    print(m.answer + ?a)\nend\n", "files": {"math/exports.sy": "answer :: 42\n", "list.sy": "answer :: 42\n"},
+                    "ref_text": "start :: fn do\n    print(42 + ?a)\nend\n", "dom": {"a": (0, 3)}, "expect": "accept"})
     # (3) one namespace name bound to two different files must be rejected (otherwise one of the two modules is silently unreachable)
     two = {"net/config.sy": "port :: 80\n", "db/config.sy": "port :: 5432\n", "a.sy": "v :: 1\n", "b.sy": "v :: 2\n"}
     for nm, imports, use in (("same_last_component", "use net/config\nuse db/config\n", "config.port"), ("same_alias", "use a as m\nuse b as m\n", "m.v"),
@@ -221,6 +225,14 @@ def extra_templates():
     out.append({"name": "entry_point_own_start_and_imported_module_with_start", "role": "entry-point-is-the-main-file's-start(own)", "text": "use a\nstart :: fn do\n    print(?a)\nend\n", "files": {"a.sy": "start :: fn do\n    print(7)\nend\n"},
                 "ref_text": "start :: fn do\n    print(?a)\nend\n", "dom": {"a": (0, 3)}, "expect": "accept"})
     return out
+
+
+ORDER_PAIRS = [
+    ("re_export_through_from", {"consumer.sy": "from hub use x\ny :: x\n", "hub.sy": "from impl use x\n", "impl.sy": "x :: 1\n"}, "use consumer", "use hub", "start :: fn do\n    print(consumer.y)\nend\n"),
+    ("two_plain_modules", {"a.sy": "x :: 1\n", "b.sy": "use a\ny :: a.x + 1\n"}, "use a", "use b", "start :: fn do\n    print(b.y + a.x)\nend\n"),
+    ("from_and_use_of_same_module", {"a.sy": "x :: 1\nz :: 2\n"}, "use a", "from a use z", "start :: fn do\n    print(a.x + z)\nend\n"),
+    ("diamond", {"a.sy": "use c\nx :: c.k + 1\n", "b.sy": "use c\ny :: c.k + 2\n", "c.sy": "k :: 5\n"}, "use a", "use b", "start :: fn do\n    print(a.x + b.y)\nend\n"),
+]
 
 
 def run(tier):
@@ -252,6 +264,15 @@ def run(tier):
         elif st != "ok":
             fnd.undecided("%s: %s %s" % (t["name"], st, str(r.get("why"))[:300]))
         if len(samples) < 3 and st == "ok": samples.append({"layout": t["name"], "files": sorted(t["files"]), "main": t["text"][:400]})
+    # acceptance must not depend on the order of the import lines of a file
+    for name, files, l1, l2, rest in ORDER_PAIRS:
+        st = []
+        for first, second in ((l1, l2), (l2, l1)):
+            rc, lua, out = common.compile_sy(art["sylt"], dict(files, **{"main.sy": first + "\n" + second + "\n" + rest})); st.append((rc == 0, out[-200:].replace("\n", " ")))
+        if st[0][0] != st[1][0]:
+            confirmed += 1
+            fnd.report("import-order-changes-acceptance:" + name, "%s: with `%s` before `%s` the program is %s, in the other order it is %s (%s)" % (name, l1, l2, "accepted" if st[0][0] else "rejected", "accepted" if st[1][0] else "rejected", (st[0][1] if not st[0][0] else st[1][1])),
+                       dict(files, **{"main.sy": l1 + "\n" + l2 + "\n" + rest, "main_swapped.sy": l2 + "\n" + l1 + "\n" + rest}), cmd="sylt -o a.lua main.sy; sylt -o b.lua main_swapped.sy")
     cov = {"programs": agg["programs"], "disagreements_checked": confirmed, "samples": samples,
            "status_counts": {k: agg.get(k, 0) for k in ("ok", "diff", "rejected", "load_error", "undecided", "stuck", "engine_error", "template_error")},
            "paths_lua": agg["paths_lua"], "cut_paths": agg["cut_paths"], "solver": {k: agg[k] for k in ("queries", "sat", "unsat", "unknown", "solver_s")},
